@@ -11,3 +11,5 @@ done
 git -C /repo checkout -- .
 # leave the generated model files as they are for the unchanged tree
 python3 -c "import sys; sys.path.insert(0,'/verif'); sys.path.insert(0,'/verif/tools'); from lib import core; core.run_generators(set())" >/dev/null 2>&1
+# evidence written while the seeded change was applied describes a modified tree: restore the committed records
+git -C /verif checkout -- evidence 2>/dev/null
